@@ -334,10 +334,14 @@ func TestVerifDetectorLifetime(t *testing.T) {
 			t.Fatalf("behaviour: %v", err)
 		}
 		nbeh++
-		rm := NewRegistrationManager(&RegConfig{EnableIPv4: true, EnableIPv6: true})
-		rm.Logger = log.New(io.Discard, "", 0)
-		rm.LivenessTester = &vingLive{}
-		_ = rm.AddTransport(pb.TransportType_Min, min.Transport{})
+		newStation := func() *RegistrationManager {
+			rm := NewRegistrationManager(&RegConfig{EnableIPv4: true, EnableIPv6: true})
+			rm.Logger = log.New(io.Discard, "", 0)
+			rm.LivenessTester = &vingLive{}
+			_ = rm.AddTransport(pb.TransportType_Min, min.Transport{})
+			return rm
+		}
+		rm := newStation()
 		// messages of the two registrations of this behaviour (secrets for which the selection in their family works)
 		raws := map[string][]byte{}
 		phantoms := map[string]net.IP{}
@@ -382,8 +386,9 @@ func TestVerifDetectorLifetime(t *testing.T) {
 			}
 			evs = append(evs, map[string]any{"a": "StState", "tracked": tr, "used": us})
 		}
+		pubWait := 2 * time.Second
 		waitPub := func(before, want int) [][]byte {
-			deadline := time.Now().Add(2 * time.Second)
+			deadline := time.Now().Add(pubWait)
 			for srv.count() < before+want && time.Now().Before(deadline) {
 				time.Sleep(100 * time.Microsecond)
 			}
@@ -397,7 +402,31 @@ func TestVerifDetectorLifetime(t *testing.T) {
 		for _, op := range ops {
 			before := srv.count()
 			switch op.A {
+			case "Packets":
+				// detector side only: every session it tracks forwards a packet at this time (applied by the detector harness)
+				evs = append(evs, map[string]any{"a": "Packets", "clock": clock})
+			case "Crash":
+				// the station process dies without Cleanup and is started again: a new manager, the same detector
+				rm = newStation()
+				evs = append(evs, map[string]any{"a": "Crash"})
+			case "NoClear":
+				t.Fatalf("the specification of the intended station never shuts down without a Clear")
 			case "Publish":
+				if op.Op == "Clear" {
+					// graceful shutdown (main.go: defer regManager.Cleanup())
+					rm.Cleanup()
+					pubWait = 250 * time.Millisecond // clearDetector publishes synchronously: what was not sent when Cleanup returned never will be
+					got := waitPub(before, 1)
+					pubWait = 2 * time.Second
+					for _, p := range got {
+						evs = append(evs, map[string]any{"a": "Publish", "id": "clear", "op": "Clear", "hex": hex.EncodeToString(p), "clock": clock})
+					}
+					if len(got) != 1 {
+						evs = append(evs, map[string]any{"a": "PublishCount", "id": "clear", "op": "Clear", "n": len(got), "clock": clock})
+					}
+					rm = newStation() // whatever comes later is another process
+					break
+				}
 				if op.Op == "New" {
 					regs, err := rm.parseRegMessage(raws[op.ID])
 					if err != nil || len(regs) != 1 {
